@@ -85,6 +85,12 @@ let ph_of s = match s with
 let rng_of_string (s : string) : M.rng =
   if s = "-" then [] else
   List.map (fun t ->
+    if t.[0] = 'e' then begin
+      (* e<code>:<hex> : a failure with an error code; the model's oracle has one kind of failure *)
+      let i = String.index t ':' in
+      let body = String.sub t (i + 1) (String.length t - i - 1) in
+      M.Fail (if body = "" then [] else bytes_of_hex body)
+    end else
     let body = String.sub t 1 (String.length t - 1) in
     let b = if body = "" then [] else bytes_of_hex body in
     if t.[0] = 'f' then M.Fill b else M.Fail b) (split ',' s)
